@@ -1,18 +1,13 @@
 #!/bin/bash
-# seed_matrix.sh — run, for every seeded mutation, the engines of its property (scratch copies, never /repo)
+# seed_matrix.sh [tier] — run, for every seeded mutation, the REAL check of its property (tools/check_seed.sh:
+# bin/check against a scratch copy of /repo with the patch applied; /repo is never touched). One line per seed.
 cd "$(dirname "$0")/.."
+tier=${1:-quick}
 for d in seeded/*/; do
-  sid=$(basename $d); pid=${sid%%-*}
-  engs=$(python3 -c "
-import json; c=json.load(open('checks.json'))
-print(' '.join(c['properties'].get('$pid',{}).get('engines',[])))")
-  [ -z "$engs" ] && { echo "$sid NO-CHECK"; continue; }
-  out=$(tools/try_seed.sh $sid $engs 2>&1)
-  if echo "$out" | grep -q "findings=[1-9]"; then
-    k=$(echo "$out" | grep -m1 "finding kind" | sed 's/.*finding kind=\([a-z]*\).*/\1/')
-    e=$(echo "$out" | grep "findings=[1-9]" | sed 's/engine=\([a-z]*\).*/\1/' | paste -sd,)
-    echo "$sid CAUGHT engines=$e first=$k"
-  else
-    echo "$sid MISSED engines=$engs"
-  fi
+  sid=$(basename $d)
+  out=$(tools/check_seed.sh $sid $tier 2>&1); rc=$?
+  if [ $rc -eq 1 ]; then
+    if echo "$out" | grep -q "no-failing-input-found"; then echo "$sid CAUGHT no-failing-input-found"; else echo "$sid CAUGHT failing-input"; fi
+  elif [ $rc -eq 0 ]; then echo "$sid MISSED"
+  else echo "$sid ERROR $(echo "$out" | tail -1)"; fi
 done
